@@ -1,15 +1,14 @@
-import Snowflake.Generated.Consts
-import Snowflake.Generated.Funcs
+import Snowflake.Generated.Encap
 import Snowflake.Model.Encap
 /-!
 Tie obligations for C09: the definitions regenerated from
 `/repo/common/encapsulation/encapsulation.go` equal the arithmetic model the theorems are about.
 -/
 namespace Snowflake.Tie.Encap
-open Snowflake.Encap Snowflake.Gen
+open Snowflake.Encap
 
 /-- `len(paddingBuffer)` in the source is the block size of the model. -/
-theorem paddingBufferLen_tie : Consts.encapsulation_paddingBufferLen = (paddingBufferLen : Int) := by decide
+theorem paddingBufferLen_tie : Gen.Encap.paddingBufferLen = (paddingBufferLen : Int) := by decide
 
 theorem or128 : ∀ x : Fin 64, (128 : UInt8) ||| UInt8.ofNat x.val = UInt8.ofNat (128 + x.val) := by decide
 theorem or192 : ∀ x : Fin 64, (192 : UInt8) ||| UInt8.ofNat x.val = UInt8.ofNat (128 + 64 + x.val) := by decide
@@ -22,8 +21,8 @@ theorem shr7 (x : Nat) : x >>> 7 = x / 128 := Nat.shiftRight_eq_div_pow x 7
 theorem shr14 (x : Nat) : x >>> 14 = x / 16384 := Nat.shiftRight_eq_div_pow x 14
 
 /-- The translated `dataPrefixForLength` is the model's `dataPrefix`, for every length. -/
-theorem dataPrefix_tie (n : Nat) : Funcs.encapsulation_dataPrefixForLength n = dataPrefix n := by
-  unfold Funcs.encapsulation_dataPrefixForLength dataPrefix prefixFor
+theorem dataPrefix_tie (n : Nat) : Gen.Encap.dataPrefixForLength n = dataPrefix n := by
+  unfold Gen.Encap.dataPrefixForLength dataPrefix prefixFor
   simp only [Nat.shiftRight_zero, and63, and127, shr7, shr14, beq_iff_eq]
   by_cases h1 : n < 64
   · have e : n % 64 = n := by omega
@@ -51,9 +50,9 @@ theorem dataPrefix_tie (n : Nat) : Funcs.encapsulation_dataPrefixForLength n = d
 /-- The translated prefix `switch` of `WritePadding`, followed by the zero bytes it announces, is the
 model's `paddingBlock`, for every block size the loop can produce (1 ≤ p ≤ 1024). -/
 theorem paddingSwitch_tie (p : Nat) (h1 : 1 ≤ p) (h2 : p ≤ 1024) :
-    (Funcs.encapsulation_paddingSwitch p).2 ++ List.replicate (Funcs.encapsulation_paddingSwitch p).1 0
+    (Gen.Encap.paddingSwitch p).2 ++ List.replicate (Gen.Encap.paddingSwitch p).1 0
       = paddingBlock p := by
-  unfold Funcs.encapsulation_paddingSwitch paddingBlock
+  unfold Gen.Encap.paddingSwitch paddingBlock
   simp only [Nat.shiftRight_zero, and63, and127, shr7, shr14, beq_iff_eq]
   by_cases c1 : p - 1 < 64
   · have e : (p - 1) % 64 = p - 1 := by omega
